@@ -18,5 +18,8 @@ PROP = dict(
              # TLS 1.3 client offering an external PSK vs. a server that has no key of the client at all: every (suite, early secret, pre_shared_key answer, selected identity,
              # client suite list, PSK hash) combination
              dict(name='c01_keyless13', src=['props/C01/keyless13.cc', 'props/C01/tls13_keyless_server.c', 'harness/wraps.c'], wraps=WRAPS, env={'VERIF_DIR': '/verif'}, enumerate=True,
-                  quick=dict(cases=0, secs=40, stride=1), thorough=dict(cases=0, secs=60, stride=1))],
+                  quick=dict(cases=0, secs=40, stride=1), thorough=dict(cases=0, secs=60, stride=1)),
+             # TLS 1.3 server with early data: genuine ClientHello1 (PSK + early_data) forwarded, HelloRetryRequest answered by a keyless attacker's own ClientHello2, forged records
+             dict(name='c01_hrr_forged_ch2', src=['props/C01/hrr_forged_ch2.cc', 'harness/wraps.c'], wraps=WRAPS, env={'VERIF_DIR': '/verif'},
+                  quick=dict(cases=600, secs=40), thorough=dict(cases=20000, secs=240))],
 )
